@@ -192,7 +192,7 @@ UNITS["codec"] = {
 PC_COMMIT = fns("src/generators/pedersen_gens.rs", "impl PedersenGens<P> {", "PedersenGens", impl_filter="impl PedersenGens<P>", fn_mono=["commit:T=Scalar"])
 
 
-def prover_pieces():
+def prover_pieces(extra_hoist=()):
     return types() + RPT_ITEMS + [
         text("spec/tproto_trait.rs"), text("spec/sproto_trait.rs"), text("spec/spec_transcript.rs"), text("spec/spec_mask.rs"), text("spec/spec_wf.rs"),
         text("spec/spec_verify.rs"), text("spec/spec_prove.rs"),
@@ -202,7 +202,7 @@ def prover_pieces():
         fns("src/utils/generic.rs", None, None, stubs=["nonce", "compute_generator_padding"]),
         fns("src/range_parameters.rs", "impl RangeParameters<P> {", "RangeParameters", stubs=RP_GETTER_STUBS, subst=IMPL_ITER_SUBST),
         with_fns(PC_COMMIT, stubs=["commit"]),
-        fns("src/range_proof.rs", RP_HEADER, "RangeProof", fns=["prove_with_rng"], mapcollect=True, hoist=["prove_with_rng:@ret"]),
+        fns("src/range_proof.rs", RP_HEADER, "RangeProof", fns=["prove_with_rng"], mapcollect=True, hoist=["prove_with_rng:@ret"] + list(extra_hoist)),
     ]
 
 
@@ -212,6 +212,14 @@ UNITS["prove"] = {
     "pieces": prover_pieces(),
     "safety": {"*": ["C01", "C06"]},
     "rlimit": 150,
+}
+# the message layer of the prover: the same extracted body, with every scalar and point pinned to spec/spec_prove_msg.rs
+UNITS["prove_msg"] = {
+    "prelude": PRELUDE_ALL,
+    "contracts": ["ctors.vc", "gens.vc", "transcripts.vc", "nonce.vc", "commit.vc", "prove_safety.vc", "prove_structure.vc", "prove_rng.vc", "prove_transcript.vc", "prove_messages.vc"],
+    "pieces": prover_pieces(extra_hoist=["prove_with_rng:vartime_mixed_multiscalar_mul", "prove_with_rng:vartime_multiscalar_mul"]) + [text("spec/spec_prove_msg.rs")],
+    "safety": {"*": ["C01", "C06"]},
+    "rlimit": 300,
 }
 UNITS["commit"] = {
     "prelude": PRELUDE_ALL,
